@@ -64,9 +64,20 @@ func c05NormIssue(k string) string {
 	return k
 }
 
+// c05DenseGarbage: a link of the dense group decoded at the place a non-conforming heap id
+// names is garbage; when the garbage happens to parse as a link, following it fails somewhere
+// else (an object header outside the file, ...). Same deviation, not another one.
+func c05DenseGarbage(is specdec.Issue) bool {
+	return strings.Contains(is.Detail, " of /dense/") || strings.Contains(is.Detail, "/dense/\x00")
+}
+
 func c05Run(c *ev.Ctx) {
 	r := c.R
 	sbv := []uint8{0, 2, 3}[r.Intn(3)]
+	forceMinimal := c.Index%20 == 3 // every twentieth file: no object at all, superblock versions in turn
+	if forceMinimal {
+		sbv = []uint8{0, 2, 3}[(c.Index/20)%3]
+	}
 	s := &hx.Script{SB: sbv}
 	model := map[string]*c05Obj{}
 	var groups []string
@@ -83,10 +94,10 @@ func c05Run(c *ev.Ctx) {
 	nds := r.Range(1, 4)
 	// one file in twelve holds no dataset; half of those hold nothing at all, or only the
 	// traces of calls that were refused (a session that allocates nothing after creation)
-	minimal := r.Chance(1, 12)
+	minimal := r.Chance(1, 12) || forceMinimal
 	if minimal {
 		nds = 0
-		if r.Bool() {
+		if r.Bool() || forceMinimal {
 			s.Ops, groups, ngroups = nil, nil, 0
 			model = map[string]*c05Obj{}
 			if r.Bool() {
@@ -130,7 +141,7 @@ func c05Run(c *ev.Ctx) {
 	// followed by another object, so that a collection that claims more than it was given
 	// collides with something
 	var vlenWant map[string][][]byte
-	if r.Chance(1, 3) {
+	if r.Chance(1, 3) && !forceMinimal {
 		vlenWant = map[string][][]byte{}
 		nv := r.Range(2, 6)
 		var strs []string
@@ -338,7 +349,7 @@ func c05Run(c *ev.Ctx) {
 	strictKeys := map[string]specdec.Issue{}
 	for _, is := range strict.Issues {
 		k := c05NormIssue(is.Key)
-		if heapIDsOff && is.Key == "decode:msg:link" && strings.Contains(is.Detail, "dense link") {
+		if heapIDsOff && (is.Key == "decode:msg:link" && strings.Contains(is.Detail, "dense link") || c05DenseGarbage(is)) {
 			k = "decode:heap-id"
 		}
 		if _, ok := strictKeys[k]; !ok {
@@ -361,7 +372,7 @@ func c05Run(c *ev.Ctx) {
 	}
 	for _, is := range append(append([]specdec.Issue(nil), tol.Issues...), tol.CheckExtents()...) {
 		k := c05NormIssue(is.Key)
-		if heapIDsOff && is.Key == "decode:msg:link" && strings.Contains(is.Detail, "dense link") {
+		if heapIDsOff && (is.Key == "decode:msg:link" && strings.Contains(is.Detail, "dense link") || c05DenseGarbage(is)) {
 			k = "decode:heap-id"
 		}
 		if _, ok := allKeys[k]; !ok {
